@@ -92,6 +92,9 @@ def cases():
     yield ("graph_dir holding input files", "src_dir: ./src\noutput_dir: ./doc\ngraph: true\ngraph_dir: ./src\n", None, ("proj/doc", "proj/src"), False)
     yield ("ordered_subpage entry climbing out of the page directory", "src_dir: ./src\noutput_dir: ./doc\ngraph: false\npage_dir: ./pages\n",
            {"proj/pages/index.md": "---\ntitle: Pages\nordered_subpage: sub/../../x.md\n---\nhello\n", "proj/x.md": "---\ntitle: Outside\n---\noutside\n"}, ("proj/doc",), False)
+    yield ("page tree three directories deep", "src_dir: ./src\noutput_dir: ./doc\ngraph: false\npage_dir: ./pages\n",
+           {"proj/pages/index.md": "---\ntitle: Root\n---\nroot\n", "proj/pages/a/index.md": "---\ntitle: A\n---\na\n", "proj/pages/a/b/index.md": "---\ntitle: B\n---\nb\n",
+            "proj/pages/a/b/leaf.md": "---\ntitle: Leaf\n---\nleaf\n", "proj/pages/a/b/c/index.md": "---\ntitle: C\n---\nc\n", "proj/pages/a/b/c/pic.png": "p"}, ("proj/doc",), False)
     yield ("stale output directory", "src_dir: ./src\noutput_dir: ./doc\ngraph: false\n", {"proj/doc/stale.html": "old"}, ("proj/doc",), False)
 
 
